@@ -212,7 +212,9 @@ PROPS = {
     "C04": dict(
         gens=[("setalg", gen.gen_C04, 0.6), ("cross", gen.gen_C04_cross, 0.3),
               ("reuse-set", lambda r: gen.gen_reuse(r, "set"), 0.3),
-              ("reuse-cross", lambda r: gen.gen_reuse(r, "cross"), 0.4)], quick=60, thorough=600,
+              ("reuse-cross", lambda r: gen.gen_reuse(r, "cross"), 0.4),
+              ("reuse-set-ir", lambda r: gen.gen_reuse(r, "set-ir"), 0.2),
+              ("two-ir-forests", gen.gen_setops_two_ir, 0.4)], quick=60, thorough=600,
         level_text="Proved: the generic apply recursion is pointwise for any scalar function under any mix of "
                    "operand/result reduction rules, and its result is reduced. Tie: tables+dumps of "
                    "UNION/INTERSECTION/DIFFERENCE/COMPLEMENT across forests; operands re-shown unchanged.",
@@ -340,7 +342,8 @@ PROPS["C15"] = dict(
                "clauses only.")
 
 PROPS["C12"] = dict(
-    gens=[("hist", lambda r: gen.gen_hist(r, fanin=False), 0.7), ("reuse", gen.gen_reuse, 0.5)],
+    gens=[("hist", lambda r: gen.gen_hist(r, fanin=False), 0.6), ("reuse", gen.gen_reuse, 0.4),
+          ("recycle-cached", gen.gen_recycle_cached, 0.5)],
     quick=30, thorough=300, rule=_AUDIT_RULE +
     "; every script is re-run under 6 other (storage flag, memory manager, deletion policy) combinations: all "
     "observations (tables, canonical dumps, node and edge counts, cardinalities) must coincide",
